@@ -230,8 +230,12 @@ def method(ex, st, recv, name, args, kw, node=None):
             yield st, (fresh(INT, "sign")[0], UFL(INT, (lambda i, r=recv.z: dg(r, i)), nd), Sym(INT, exp)); return
     if isinstance(recv, (str, Sym)) and (isinstance(recv, str) or recv.ty.kind == "str"):
         sm = ex.contracts.get("strmethod:" + name)
-        if sm is not None and isinstance(recv, Sym):
+        if sm is not None and (isinstance(recv, Sym) or any(isinstance(a, Sym) for a in args)):
             yield from sm(ex, st, recv, args, kw); return
+        if name == "encode" and isinstance(recv, str) and all(isinstance(a, str) for a in args) and not kw:
+            try: recv.encode(*args)
+            except (LookupError, ValueError) as e: yield st, Raise(ex.new_builtin_exc(st, type(e).__name__ if type(e).__name__ in ("LookupError", "ValueError", "UnicodeEncodeError") else "LookupError", [str(e)])); return
+            yield st, Opaque(); return
         if name == "split" and isinstance(recv, str) and all(isinstance(a, str) for a in args): yield st, recv.split(*args); return
         if name == "strip" and not args:
             if isinstance(recv, str): yield st, recv.strip(); return
